@@ -12,6 +12,7 @@ import Mathlib.MeasureTheory.Constructions.BorelSpace.Order
 import Mathlib.Analysis.SpecialFunctions.Log.Basic
 import Mathlib.Analysis.SpecialFunctions.Trigonometric.Inverse
 import Mathlib.Analysis.SpecialFunctions.Pow.Real
+import Mathlib.Analysis.SpecialFunctions.Integrals.Basic
 import Mathlib.Tactic.Positivity
 import Mathlib.Tactic.NormNum.OfScientific
 import Mathlib.Tactic.Ring
@@ -837,5 +838,38 @@ theorem commit_spec (reserved : List String) (st : FState ℝ) (store : Store) (
   | name n => exact key _ n
 
 end
+
+/-! ### integrals for the target moments -/
+
+open intervalIntegral in
+theorem integral_cos_pi : ∫ u in (0:ℝ)..1, Real.cos (Real.pi * u) = 0 := by
+  have h := mul_integral_comp_mul_left (a := 0) (b := 1) (f := Real.cos) (c := Real.pi)
+  rw [integral_cos] at h
+  simp only [mul_zero, mul_one, Real.sin_pi, Real.sin_zero, sub_zero] at h
+  exact (mul_eq_zero.mp h).resolve_left Real.pi_ne_zero
+
+open intervalIntegral in
+theorem integral_cos_sq_pi : ∫ u in (0:ℝ)..1, Real.cos (Real.pi * u) ^ 2 = 1 / 2 := by
+  have h := mul_integral_comp_mul_left (a := 0) (b := 1) (f := fun x => Real.cos x ^ 2) (c := Real.pi)
+  rw [integral_cos_sq] at h
+  simp only [mul_zero, mul_one, Real.sin_pi, Real.sin_zero, Real.cos_pi, Real.cos_zero, sub_zero] at h
+  have hpi : Real.pi ≠ 0 := Real.pi_ne_zero
+  have h2 : Real.pi * (∫ u in (0:ℝ)..1, Real.cos (Real.pi * u) ^ 2) = Real.pi * (1 / 2) := by
+    rw [h]; ring
+  exact mul_left_cancel₀ hpi h2
+
+theorem uniformToArcsin_cos (a b u : ℝ) :
+    uniformToArcsin a b u = (a + b) / 2 - (b - a) / 2 * Real.cos (Real.pi * u) := by
+  rw [uniformToArcsin_eq, Real.sin_sq_eq_half_sub]
+  have : 2 * (Real.pi / 2 * u) = Real.pi * u := by ring
+  rw [this]; ring
+
+
+open intervalIntegral in
+theorem integral_sub_pow (a b : ℝ) (n : ℕ) :
+    ∫ y in a..b, (y - (a + b) / 2) ^ n = (((b - a) / 2) ^ (n + 1) - (-((b - a) / 2)) ^ (n + 1)) / (n + 1) := by
+  rw [intervalIntegral.integral_comp_sub_right (fun t => t ^ n) ((a + b) / 2), integral_pow]
+  congr 2 <;> ring
+
 
 end GSV.Lemmas.Transform
